@@ -2,7 +2,9 @@
    Model: theories/Callstacks.v (CallstacksParser) + theories/Composite.v (sampler decoder); tie: the
    correspondence of tools/props/C15.py through the real decoders and the real CallstacksParser. *)
 From Coq Require Import NArith List Bool Permutation.
-From Kd Require Import theories.Base theories.Composite theories.Callstacks gen.GenComposite.
+From Coq Require Import ZArith.
+From Kd Require Import theories.Base theories.Composite theories.Callstacks gen.GenComposite
+  theories.CallstacksIR gen.GenCallstacks theories.CallstacksRefine.
 Import ListNotations.
 Open Scope N_scope.
 
@@ -49,6 +51,24 @@ Theorem c15_frames_iff : forall kind w,
   snd (handle_event kind w) <> None <->
   has_flag (wval (hd (mkWev 0 [] 0 0) w) 0) SAMPLER_USTACK = true /\ exists e, In e w /\ of_kind kind K_STK_UHDR e = true.
 Proof. exact perf_cs. Qed.
+
+(* 7. the code refines the model: the statements of callstacks_parser.py as tools/translate/tr_callstacks.py reads them off the
+      current source (insert_image statement by statement, the index / guard / indexing of the frame attribution, the if / elif
+      chain of feed_generator), run on the TWO parallel lists the code keeps - with list.insert, Python's negative indexing and
+      IndexError / NameError written out - yield, for every stream of decoded traces and every sorted table, exactly the model's
+      callstacks (offsets as Python ints), and never raise *)
+Theorem c15_code_refines_model : forall U trs (t : table U), ssorted (map fst t) ->
+  fexec gen_branches gen_insert gen_attr (unz U t) trs = Some (map (convc U) (feed U t trs)).
+Proof. intros U trs t. apply feed_refines. Qed.
+Theorem c15_code_lists_parallel : forall U (t : table U) a u, ssorted (map fst t) ->
+  exists t', iexec gen_insert a u None (unz U t) = Some (unz U t') /\ ssorted (map fst t')
+             /\ length (addrs (unz U t')) = length (uuids (unz U t')).
+Proof. intros U t a u. apply lists_in_step. Qed.
+Example c15_code_nontrivial :
+  fexec gen_branches gen_insert gen_attr (unz N [])
+    [TMapA N 0x2000 2; TLaunch N [(0x1000, 1); (0x2000, 9)]; TPerf N 5 7 (Some [0xfff; 0x1000; 0x2001]); TPerf N 6 7 None]
+  = Some [(5, 7, [(0xfff, None); (0x1000, Some (1, 0%Z)); (0x2001, Some (2, 1%Z))])].
+Proof. vm_compute. reflexivity. Qed.
 
 (* the flag constants of the model are the ones in the source now *)
 Example c15_constants : gen_SAMPLER_USTACK = SAMPLER_USTACK /\ gen_SAMPLER_TH_INFO = SAMPLER_TH_INFO.
